@@ -63,6 +63,17 @@ def generate(rng, tier):
                     [("d", ("m", E.ROOT, [("m", E.PARENT, [("b", E.CHILD, pl)])]))],
                     [("u", ("s", E.ROOT)), ("d", ("s", E.PARENT)), ("d", ("b", E.CHILD, pl))]):
             cases.append(Case("X %s %s %s f" % (sp.s(), ops_line(ops, "x"), E.cfg_str()), "boundary", {"tags": [E.tag_str(t) for _, t in ops], "nodes": 3}))
+    # explicit size widths at their edges: a payload (or master content) of exactly 2^(7w) - 2 bytes is the largest a width-w field can
+    # announce, 2^(7w) - 1 is the reserved all-ones pattern (unknown size) and must be refused; whatever the writer ACCEPTS has to read back
+    for w, edge in ((1, 127), (2, 16383)):
+        for n in (edge - 2, edge - 1, edge, edge + 1):
+            pl = bytes([n & 0xFF]) * n
+            inner = (n - 3) if n - 3 < 127 else (n - 4)    # a child whose whole element makes the parent's content n bytes long
+            for ops in ([("d", ("s", E.ROOT)), ("d", ("s", E.PARENT)), (str(w), ("b", E.CHILD, pl)), ("d", ("b", E.CHILD, b"\x01")), ("d", ("e", E.PARENT)), ("d", ("e", E.ROOT))],
+                        [("d", ("s", E.ROOT)), (str(w), ("s", E.PARENT)), ("d", ("b", E.CHILD, bytes(inner))), ("d", ("e", E.PARENT)), ("d", ("b", E.VOID, b"\x02")), ("d", ("e", E.ROOT))],
+                        [("u", ("s", E.ROOT)), (str(w), ("m", E.PARENT, [("b", E.CHILD, bytes(inner))])), ("d", ("b", E.VOID, b"\x02"))]):
+                cases.append(Case("X %s %s %s f" % (sp.s(), ops_line(ops, "x"), E.cfg_str()), "widthedge",
+                                  {"tags": [E.tag_str(t) for _, t in ops], "nodes": 3, "may_reject": True}))
     return cases
 
 
@@ -98,6 +109,8 @@ def oracle(case, outs):
     if len(p) != 3:
         return "malformed: %s" % out[:300]
     wt = [x for x in p[0].split(" ") if x]
+    if case.meta.get("may_reject") and any(x.startswith("E:size") for x in wt):
+        return None    # the requested width cannot announce this size: the property speaks of sequences the writer accepts
     if any(not x.startswith("OK@") for x in wt):
         return "the writer rejected a call of a conformant sequence: %s -> %s" % (case.lines[0][:400], " ".join(wt))
     tags, term = item_tags(p[2].split(" "))
